@@ -10,7 +10,10 @@ PROP = 'C10'
 EXPLANATION = ('A REAL client of this package (Client or AsyncClient, through the http_session= seam and stubbed requests / '
                'websocket-client / aiohttp transports) talks to a REAL server of this package (Server through WSGI, AsyncServer through '
                'the real ASGI driver) inside one kernel; greenlet and coroutine tasks are mixed. Pair, transports, burst sizes in both '
-               'directions, payload kinds, idle heartbeat cycles and who disconnects are solver-enumerated selectors.')
+               'directions, payload kinds, idle heartbeat cycles and who disconnects are solver-enumerated selectors. Added later: WebSocket '
+               'back-pressure (the client stops reading while the server application sends, then every write is a scheduling point), a '
+               'client object used for two connections in a row (the first ended cleanly or with a POST still in flight on a slow network), '
+               'and the conversation being the 62nd-64th session the server object has issued.')
 STUBS = SIM_STUBS + ['client side: requests.Session / websocket.create_connection / aiohttp session replaced by stubs that open request '
                      'tasks on the server in the same kernel; Client.start_background_task/create_queue/create_event/sleep overridden '
                      'with kernel-backed equivalents; module global asyncio of async_client = shim']
